@@ -32,7 +32,8 @@ ASSUMPTIONS = [
     "a custom registration between two requests may legitimately change the answer (custom certificates take precedence)",
 ]
 LEVEL_TEXT = ("Random histories with more distinct requests than the capacity are checked step by step against a model; "
-              "bounded by 40 steps, capacity <= 5 (the real 100 only in the thorough tier) and the fixed name universe.")
+              "bounded by 40 steps and capacity <= 5 set on the instance or at construction (plus ~1% histories of 200-330 "
+              "requests against an untouched store with the real capacity) and the fixed name universe.")
 LEVEL_NOTE = "trusts cryptography's x509 parsing of the returned certificates"
 QUICK_N, THOROUGH_N = 24_000, 600_000
 
@@ -75,10 +76,11 @@ _op = _weighted((_get, 6), (_again, 3), (_vary, 3), (_add, 2))
 
 
 def strategy(ctx):
+    # "how": the capacity is either lowered on the existing instance (what the repository's test does) or already in
+    # force when the store is constructed (subclass with a class-level STORE_CAP); the store must honour both
     small = st.fixed_dictionaries({"cap": st.sampled_from([2, 3, 4, 5]),
+                                   "how": st.sampled_from(["class", "instance", "class"]),
                                    "ops": st.lists(_op, min_size=4, max_size=40)})
-    if not ctx.thorough:
-        return small
     # the real capacity, with enough distinct requests to overflow it
     # (few registrations and never "*", otherwise custom certificates answer everything and nothing is generated)
     add_nostar = st.tuples(st.just("add"), st.integers(0, len(CUSTOM) - 1),
@@ -86,8 +88,11 @@ def strategy(ctx):
     get_or_again = _weighted((_get, 8), (_again, 2))
     big = st.fixed_dictionaries({
         "cap": st.just(100),
+        "how": st.just("default"),  # untouched store: the real capacity
         "ops": st.tuples(st.lists(add_nostar, max_size=2), st.lists(get_or_again, min_size=200, max_size=330)).map(
             lambda t: list(t[0]) + list(t[1]))})
+    if not ctx.thorough:
+        return st.integers(0, 119).flatmap(lambda i: big if i == 0 else small)
     return _weighted((big, 1), (small, 19))
 
 
@@ -183,9 +188,21 @@ def check_case(case, ctx):
     from mitmproxy import certs
 
     key, cacert, custom = pki()
-    store = certs.CertStore(key, cacert, None, b"", certs.DHParams(b""))
     cap = case["cap"]
-    store.STORE_CAP = cap
+    how = case.get("how", "instance")
+    if how == "class":
+        class Store(certs.CertStore):
+            STORE_CAP = cap
+        store = Store(key, cacert, None, b"", certs.DHParams(b""))
+    else:
+        store = certs.CertStore(key, cacert, None, b"", certs.DHParams(b""))
+        if how == "instance":
+            store.STORE_CAP = cap
+        else:
+            cap = certs.CertStore.STORE_CAP  # "default": whatever the fixed capacity is
+    if store.STORE_CAP != cap:
+        from runner import HarnessError
+        raise HarnessError("capacity not in force")
     custom_fp = {e.cert.fingerprint(): i for i, e in enumerate(custom)}
     registered = {}  # name -> custom index (model of add_cert)
     gen_order = []  # model: (cn, sans) keys of generated certificates in creation order
@@ -287,16 +304,21 @@ def check_case(case, ctx):
                     if len(set(gen_order)) > cap:
                         nontrivial.add("over-capacity" if cap < 100 else "over-capacity(cap=100)")
         # bound, after every call
+        # (counted in `certs` itself, independently of whatever bookkeeping structure the store uses for expiry)
         try:
             n_generated = sum(1 for kk in store.certs if not isinstance(kk, str))
-            qlen = len(store.expire_queue)
         except Exception as e:
             from runner import HarnessError
-            raise HarnessError("cannot observe CertStore.certs / expire_queue: %r" % (e,))
+            raise HarnessError("cannot observe CertStore.certs: %r" % (e,))
+        try:
+            qlen = len(store.expire_queue)
+        except Exception:
+            qlen = 0
         if n_generated > cap or qlen > cap:
-            ctx.fail("bound-exceeded", "capacity %d but %d generated entries in certs, expire_queue length %d"
-                     % (cap, n_generated, qlen))
+            ctx.fail("bound-exceeded:cap-%s" % ("set-on-instance" if how == "instance" else "at-construction"),
+                     "capacity %d (%s) but %d generated entries in certs, expire_queue length %d"
+                     % (cap, how, n_generated, qlen))
     if nontrivial:
-        ctx.nt((cap, case["ops"]), "+".join(sorted(nontrivial)))
+        ctx.nt((cap, how, case["ops"]), "+".join(sorted(nontrivial)) + " [cap %s]" % how)
     else:
         ctx.cls("trivial-history")
